@@ -143,7 +143,7 @@ pub fn all() -> Vec<Prop> {
             level: "exploration",
             rule: "per-RPC-stream half (E2): a real rpc::Service server (real ping server; consensus server with a harness handler that holds requests) over a SimPipe against the real client or a greedy raw-mux client announcing more streams than allowed with no rate limit of its own; OPEN frames read off the server's wire with simulated timestamps and handler starts must obey burst + T/refresh + 1 per window, concurrent handlers <= INFLIGHT. Limiter half (E3): one evaluation = 1-6 client tasks doing acquire(n)/hold/drop/cancel on the real Limiter under a seeded schedule with director-controlled clock advances; oracles: token-bucket bound over every pair of grants, arrival-order service, no leak after cancellations, nothing above burst granted; non-trivial = at least two grants; distinct = distinct event-log fingerprint",
             batches: |t| {
-                let mut b = prim_batches("limiter", 3000, 200_000, t);
+                let mut b = prim_batches("limiter", 12000, 200_000, t);
                 b.push(Batch { engine: "pipe", mode: "rpc", runs: if t == "thorough" { 40_000 } else { 1000 } });
                 b
             },
@@ -369,7 +369,7 @@ fn bft_case(mode: &str, seed: u64) -> (bft::Cfg, Vec<bft::Action>, bft::RunOpts)
         while at + 10 < plan.len() {
             let to = rand::Rng::gen_range(&mut rng, 0..n);
             let len = rand::Rng::gen_range(&mut rng, 60..260usize);
-            let ep = vec![bft::Action::HideCommit { to }];
+            let ep = vec![bft::Action::HideCommit { to, byz_next: rand::Rng::gen_bool(&mut rng, 0.5) }];
             let _ = vt;
             for (k, a) in ep.into_iter().enumerate() {
                 plan.insert(at + k, a);
